@@ -20,7 +20,7 @@ ASSUMPTIONS = ["latest admissible rejection stage per fault: parse for literal f
                "expand_macros for faults arising by macro substitution, run otherwise",
                "zero/negative strides and negative loop counts are not in the statement and not generated"]
 TIERS = {"quick": {"shards": 8, "budget_s": 320}, "thorough": {"shards": 16, "budget_s": 360}}
-REQUIRE = {"route:macros-first": 500, "route:parser-macro-let": 500, "route:builder": 500, "route:parser-let-map": 500, "route:parser-let": 500, "internal-context-names-observed": 1, "faulty-cases": 2000, "twin-cases": 2000, "twin-accepted": 2000, "precedence-probes": 1}
+REQUIRE = {"faulty-references-given-to-the-used-qubit-analysis-of-the-parsed-circuit": 100, "route:macros-first": 500, "route:parser-macro-let": 500, "route:builder": 500, "route:parser-let-map": 500, "route:parser-let": 500, "internal-context-names-observed": 1, "faulty-cases": 2000, "twin-cases": 2000, "twin-accepted": 2000, "precedence-probes": 1}
 
 STAGES = ["parse", "fill_in_let", "expand_macros", "run"]
 
@@ -103,6 +103,17 @@ def judge(case):
             fails.append(("twin-rejected:%s:%s" % (case.get("twin_of"), stage), {"error": str(o[1:3])[:300]}))
         return "ok", fails, info
     fc = case["fault"]
+    if not ov and fc.split(":")[0] in ("index-let", "alias-index-let", "alias-single-let") and case.get("route", "passes") == "passes":
+        # the same reference met by a reader that evaluates the constants itself (no fill_in_let first): the used-qubit analysis
+        # of the circuit as parsed may refuse it, it may not name some qubit for it
+        oc = lib.outcome(lib.parse, sx.to_text(prog), X.native())
+        if oc[0] == "ok":
+            ou = lib.outcome(lib.used_qubits, oc[1])
+            info["raw"] = 1
+            if ou[0] == "ok":
+                fails.append(("accepted-by-the-used-qubit-analysis-of-the-circuit-as-parsed:" + fc, {"got": str(dict(ou[1]))[:120]}))
+            elif ou[0] == "exc":
+                fails.append(("wrong-exception:%s:%s:used-qubit-analysis" % (fc, ou[1]), {"error": ou[2]}))
     if stage == "done":
         probs = [np.asarray(sc.simulated_probability_by_int).round(6).tolist() for sc in res.subcircuits][:2]
         fails.append(("accepted-and-ran:" + fc, {"probabilities": probs, "ov": ov}))
@@ -595,6 +606,7 @@ def process(ctx, case):
     if st != "ok":
         rec.count(st)
         return
+    rec.count("faulty-references-given-to-the-used-qubit-analysis-of-the-parsed-circuit", (info or {}).get("raw", 0))
     if case["fault"] is None:
         rec.count("twin-cases")
         if info["stage"] == "done":
